@@ -86,7 +86,7 @@ CLAIMS = {
     'C06': dict(
         technique='Coq program-level power-loss theorems for every operation and for whole histories (all inputs, every crash point) + verified power-loss monitor + power-loss image at every kill point',
         text=('PROOF (Coq, closed): C06_monitor_sound with the power_loss projection (every file falls back to its last fsync), '
-              'C06_power_loss_anywhere_in_any_history (ANY history of add/pack/direct-to-pack/import/clean/repack with the fsync defaults, power lost after ANY number of primitives: Inv in what survives), C06_add_loose_power_safe, C06_pack_power_safe (do_fsync=true: rows committed only over flushed+fsynced bytes, loose unlinked only after that '
+              'C06_power_loss_anywhere_in_any_history (ANY history of add/pack/direct-to-pack/import/delete/clean/repack with the fsync defaults, power lost after ANY number of primitives: Inv in what survives), C06_add_loose_power_safe, C06_pack_power_safe (do_fsync=true: rows committed only over flushed+fsynced bytes, loose unlinked only after that '
               'commit), C06_clean_power_safe, C06_repack_power_safe, C06_add_to_pack_power_safe - ALL inputs and crash points; default fsync settings from the AST. TIE: fsync hook snapshots file content; '
               'after each of ~220 kills (every gated call + after completion) the power-loss image is built and examined raw and through a new '
               'handle; the power-loss monitor must accept every implementation trace with default settings (it rejects the do_fsync=False '
